@@ -244,10 +244,11 @@ class FakePopen:
                    "\tsockname: AF_UNIX /fake/sock\n" % self.cmd[1])
             return out.encode(), b""
         if self.cmd[0].endswith("procfiles"):
+            # the parser's regex wants "<fd>: S_IFREG ... name:<path>" on one line
             out = ("%s : /fake/bin/prog\n  Current rlimit: 2000 file descriptors\n"
-                   "   0: S_IFCHR mode:0622 dev:10,4 ino:1 uid:0 gid:0 rdev:21,7\n      O_RDWR  name:/dev/pts/7\n"
-                   "   3: S_IFREG mode:0644 dev:10,4 ino:7 uid:0 gid:0 rdev:0,0\n      O_RDONLY size:5  name://fake/f1\n"
-                   "   4: S_IFREG mode:0644 dev:10,4 ino:8 uid:0 gid:0 rdev:0,0\n      O_RDONLY size:5  name:Cannot be retrieved\n"
+                   "   0: S_IFCHR mode:0622 dev:10,4 ino:1 uid:0 gid:0 rdev:21,7 O_RDWR name:/dev/pts/7\n"
+                   "   3: S_IFREG mode:0644 dev:10,4 ino:7 uid:0 gid:0 rdev:0,0 O_RDONLY size:5 name://fake/f1\n"
+                   "   4: S_IFREG mode:0644 dev:10,4 ino:8 uid:0 gid:0 rdev:0,0 O_RDONLY size:5 name:Cannot be retrieved\n"
                    % self.cmd[2])
             return out.encode(), b""
         return b"", b""
